@@ -120,6 +120,13 @@ theorem c11_iir_recurrence (taps xs : List R) (ht : taps ≠ []) :
     iirRun (ringOps R) taps [] xs = some (iirRef taps [] xs) :=
   iir_from_start taps xs ht
 
+/-- **Clamped IIR** (`filter_clamped`, used by the symbol-clock loop filter): the
+returned value is clamped and is the very value fed back into the recurrence. -/
+theorem c11_iir_clamped {α : Type} (o : Ops α) (clamp : α → α) (taps buf : List α) (x : α) (buf' : List α) (y : α)
+    (h : iirClampStep o clamp taps buf x = some (buf', y)) (h2 : 2 ≤ taps.length) :
+    buf'.getLast? = some y ∧ ∃ z, y = clamp z :=
+  iirClamp_feedback o clamp taps buf x buf' y h h2
+
 /-- **Single-pole IIR**: `y = α·x + (1-α)·y_prev`, and its closed form. -/
 theorem c11_single_pole (a y0 : R) (xs : List R) :
     (∀ prev x, singlePole (ringOps R) a (1 - a) prev x = a * x + (1 - a) * prev) ∧
